@@ -281,6 +281,31 @@ def meta_rules(repo: Repo, rep, P: str):
     for kind in ("Controller", "Option"):
         tests = [c for c in ast.walk(fn) if isinstance(c, ast.Call) and norm(c.func) == "isinstance" and len(c.args) == 2 and norm(c.args[1]) == kind]
         if not tests:
+            # the selection lives in a module-level helper called with the kind: _members(cls, Controller)
+            done = False
+            for c in ast.walk(fn):
+                if isinstance(c, ast.Call) and isinstance(c.func, ast.Name) and any(norm(a) == kind for a in c.args):
+                    h = next((st for st in meta.file.tree.body if isinstance(st, ast.FunctionDef) and st.name == c.func.id), None)
+                    if h is None:
+                        continue
+                    hp = [a.arg for a in h.args.args]
+                    kpar = hp[[norm(a) for a in c.args].index(kind)] if len(hp) >= len(c.args) else None
+                    cpos = next((i for i, a in enumerate(c.args) if norm(a) == cparam), None)
+                    hc = hp[cpos] if cpos is not None and cpos < len(hp) else None
+                    sel = [t for t in ast.walk(h) if isinstance(t, ast.Call) and norm(t.func) == "isinstance" and len(t.args) == 2 and norm(t.args[1]) == kpar]
+                    if not sel or hc is None:
+                        continue
+                    src_h = " ".join(norm(n.iter) for n in ast.walk(h) if isinstance(n, (ast.For, ast.comprehension)))
+                    if f"dir({hc})" in src_h or "__mro__" in src_h or ".mro()" in src_h:
+                        rep.ok(f"{P}.meta.collect", construct, f"{kind}: {norm(c)} → {src_h[:60]}", "collected over every name visible on the class (inherited descriptors included)")
+                        done = True
+                    elif "vars(" in src_h or "__dict__" in src_h:
+                        rep.violation(f"{P}.meta.collect", construct, f"{kind}: {norm(c)} → {src_h[:80]}",
+                                      f"{kind} descriptors are collected from the class's own namespace only: classes derived from a module class get empty tables", where)
+                        done = True
+                    break
+            if done:
+                continue
             rep.inconclusive(f"{P}.meta.collect", construct, f"isinstance(…, {kind})", f"selection of {kind} descriptors not found", where)
             continue
         for t in tests:
